@@ -65,6 +65,7 @@ def oracle(rng, tier):
         cfg['m'] = pv.Mixtures.H2O_EtOH if rng.random() < 0.7 else rng.choice(gens.builtin_mixtures())
         cfg['ct'] = 'NRTL'
         cfg['ncurves'] = rng.choice([1, 1, 2])
+        cfg['sameT'] = cfg['ncurves'] > 1 and rng.random() < 0.5
         if cfg['ncurves'] == 1:
             Tc = po.curve_set(cfg['m'], random.Random(1), 1).diffusion_curves[0].feed_temperature
             cfg['T0'] = Tc + rng.choice([0.0, gens.loguniform(rng, 1e-9, 60.0), -gens.loguniform(rng, 1e-9, 30.0)])
@@ -74,7 +75,7 @@ def oracle(rng, tier):
         ok, detail = True, ''
         try:
             pm, pvo, cd = po.run(cfg, fake_fit=False)
-            cs = po.curve_set(cfg['m'], random.Random(1), cfg['ncurves'], cfg['cbasis'])
+            cs = po.curve_set(cfg['m'], random.Random(1), cfg['ncurves'], cfg['cbasis'], cfg['sameT'])
             exp = expected_fits(pvo, cfg, cs, iso)
             fits = pm.permeance_fits
             for i in range(2):
